@@ -78,6 +78,28 @@ Proof.
 Qed.
 Print Assumptions instantiate_partial_compose_dependent_refuted.
 
+(*    In general (dependent const parameter types included) the composition law holds modulo
+      the type annotations of constants: everything a substitution or the HUGR translation of a
+      well-typed program looks at — inputs, output, comptime args, the remaining parameters with
+      their (erased) types, indices and flags — agrees. *)
+Theorem instantiate_partial_compose_erased : forall f a1 a2,
+  wf_fty f = true -> forallb arg_closed a1 = true ->
+  length a1 = length (f_params f) -> length a2 = length (filter is_none a1) ->
+  erase_fty (instantiate_partial (instantiate_partial f a1) a2)
+  = erase_fty (instantiate_partial f (compose_args a1 a2)).
+Proof. exact ip_compose_erased. Qed.
+Print Assumptions instantiate_partial_compose_erased.
+
+Example instantiate_partial_compose_erased_ex :
+  (* forall T, (c1: T), U.  first U := float, then T := int *)
+  let f := mk_fty [TOpq 1 [CVar (TVar 0 true true) 1; TVar 2 true true]] [FNo] (TVar 0 true true)
+                  [PTy 0 true true; PCon 1 (TVar 0 true true) true; PTy 2 true true] in
+  let a1 := [None; None; Some (TNum KFloat)] in
+  let a2 := [Some (TNum KInt); None] in
+  wf_fty f = true /\ closed_ctypes (f_params f) = false /\
+  f_params (instantiate_partial (instantiate_partial f a1) a2) = [PCon 0 (TNum KInt) false].
+Proof. vm_compute. auto. Qed.
+
 (** 3. the remaining parameters: the unspecialised ones in their original order, renumbered
        0..k-1, const bounds instantiated with the instantiation of the earlier parameters *)
 Theorem remaining_params_spec : forall f a,
